@@ -139,7 +139,8 @@ def ob_noise_wiring(which, timeout=10):
         raise Unsupported('%s: %d PauliErrorModel constructions found' % (which, len(calls)))
     fn, call = calls[0]
 
-    def keys_of(expr, seen=()):
+    def keys_of(expr, seen=(), cur=None):
+        cur = cur or fn
         """request keys an expression is read from, through plain local assignments; None = not resolvable"""
         if isinstance(expr, ast.Constant):
             return set()
@@ -147,11 +148,22 @@ def ob_noise_wiring(which, timeout=10):
             return {expr.slice.value}
         if isinstance(expr, ast.Call) and isinstance(expr.func, ast.Attribute) and expr.func.attr == 'get' and expr.args and isinstance(expr.args[0], ast.Constant):
             return {expr.args[0].value}
+        if isinstance(expr, ast.Name) and expr.id not in seen and cur is not entry and expr.id in [a_.arg for a_ in cur.node.args.args]:
+            # a parameter of the helper that builds the model: resolve the argument at its (single) call site in the request handler
+            sites = [n for n in ast.walk(entry.node) if isinstance(n, ast.Call) and isinstance(n.func, ast.Attribute) and n.func.attr == cur.node.name]
+            if len(sites) != 1:
+                return None
+            params = [a_.arg for a_ in cur.node.args.args]
+            if params and params[0] == 'self':
+                params = params[1:]
+            k_ = params.index(expr.id) if expr.id in params else None
+            arg_ = sites[0].args[k_] if k_ is not None and k_ < len(sites[0].args) else next((kw.value for kw in sites[0].keywords if kw.arg == expr.id), None)
+            return keys_of(arg_, (), entry) if arg_ is not None else None          # names are resolved afresh in the caller's scope
         if isinstance(expr, ast.Name) and expr.id not in seen:
             ks, found = set(), False
-            for n in ast.walk(fn.node):
+            for n in ast.walk(cur.node):
                 if isinstance(n, ast.Assign) and any(isinstance(t, ast.Name) and t.id == expr.id for t in n.targets):
-                    r = keys_of(n.value, seen + (expr.id,))
+                    r = keys_of(n.value, seen + (expr.id,), cur)
                     if r is None:
                         return None
                     ks |= r; found = True
